@@ -674,7 +674,9 @@ inline void exec(Entry const& e, Case& c, bool random)
         if (d == SKIP) { return; }
         if (!d.empty()) {
             vf::mismatch(e.name, c, d);
-            return;
+            // in C02's memory mode the mismatch was only counted: go on to the exact-size pass, where an out-of-range
+            // access is a sanitizer report
+            if (!vf::ctx().memory_only) { return; }
         }
         account(e, c, random);
     }
@@ -862,6 +864,10 @@ inline void random_cases(vf::Ctx& ctx, Entry const& e, int count, int maxlen)
             auto d = run_entry(e, c);
             if (d == SKIP) { break; }
             if (!d.empty()) {
+                if (vf::ctx().memory_only) {
+                    vf::mismatch(e.name, c, d); // only counted; continue with the exact-size pass
+                    continue;
+                }
                 shrink_random(e, c, d);
                 vf::mismatch(e.name, c, d);
                 break;
